@@ -131,9 +131,9 @@ type Exchange struct {
 	BodyCut      bool // the body stream ended early with a clean EOF
 	BodyFault    *Fault
 	Delivered    int
-	SilentCancel bool // the request context was cancelled while the body stream stayed healthy
+	SilentCancel bool   // the request context was cancelled while the body stream stayed healthy
 	CtxCancelled string // "before" | "at-call": the request context was cancelled although no stream broke
-	RespCut      bool // the client went away while the answer was being written: Write failed after RespCutAt bytes
+	RespCut      bool   // the client went away while the answer was being written: Write failed after RespCutAt bytes
 	RespCutAt    int
 }
 
